@@ -2,6 +2,8 @@ import PkgModel.PyRt
 import PkgModel.PyRx
 import PkgModel.PySet
 import PkgModel.Repr
+import PkgModel.Email
+import PkgModel.PyElf
 /-!
 # PyX7 — run-time additions of the seventh translator round
 
@@ -162,5 +164,54 @@ open Py PyRt
 /-- `k in D` for a module-level dict of constants (its keys) -/
 def const_keys_contains (keys : List PyVal) (k : PyVal) : M PyVal :=
   if !hashable k then throw typeError else pure (.bool (keys.any fun y => PyVal.eq y k))
+
+end PyX7
+
+/-! ## `email.message.Message` as data
+
+What `email.parser` hands to `parse_email` enters as a value `obj "Message" fields` (exactly the data `PkgModel/Email.lean` takes):
+`headers` — the list of `(name, value)` in document order, a value being a `str`, a `Header` object `obj "Header" [("chunks", [bytes…])]`
+(what `email.header.decode_header` returns for it) or `obj "HeaderErr" [("cls", name)]` (`decode_header` raises); `payload` — `get_payload()`;
+`decoded` / `decoded_cte` — `get_payload(decode=True)` without / with a `Content-Transfer-Encoding` header in the message. -/
+namespace PyX7
+open Py PyRt
+
+def msgHeaders (m : PyVal) : Option (List PyVal) :=
+  match m with
+  | .obj "Message" fs => (match lookupField fs "headers" with | some (.list l) => some l | _ => Option.none)
+  | _ => Option.none
+
+def headerName : PyVal → Str
+  | .tuple [.str n, _] => n
+  | _ => []
+
+/-- `del msg[name]`: every header of that name (ASCII case-insensitive) goes; no error when there is none -/
+def msg_del (m name : PyVal) : M PyVal :=
+  match m, name, msgHeaders m with
+  | .obj c fs, .str n, some hs =>
+    pure (.obj c (setField fs "headers" (.list (hs.filter fun h => lowerStr (headerName h) != lowerStr n))))
+  | _, _, _ => throw typeError
+
+def hasHeader (m : PyVal) (n : Str) : Bool :=
+  match msgHeaders m with
+  | some hs => hs.any fun h => lowerStr (headerName h) == lowerStr n
+  | Option.none => false
+
+/-- `msg.get_payload(decode=d)` -/
+def msg_get_payload (m d : PyVal) : M PyVal :=
+  if truthy d then
+    getattr m (if hasHeader m (ofString "content-transfer-encoding") then "decoded_cte" else "decoded")
+  else getattr m "payload"
+
+end PyX7
+
+namespace PyX7
+open Py PyRt
+
+/-- `b.decode("utf8", "strict")` (`Email.utf8Decode`: no overlong forms, no surrogates, nothing above U+10FFFF) -/
+def bytes_decode_utf8 (b : PyVal) : M PyVal :=
+  match PyElf.bytesOf b with
+  | some bs => (match Email.utf8Decode bs with | some s => pure (.str s) | Option.none => throw "UnicodeDecodeError")
+  | Option.none => throw attributeError
 
 end PyX7
